@@ -48,6 +48,9 @@ extern "C" void vp_thread3() {   // second thief
 }
 #endif
 extern "C" void vp_final() {
+#ifdef NORACE_ONLY
+  return;
+#endif
   // drain what is left, then: every pushed item exactly once, nothing else (identity comparisons only)
   int* r = nullptr;
   unsigned n = ngot_owner;
